@@ -2,7 +2,13 @@ package c06
 
 import (
 	"encoding/json"
+	"fmt"
+	"os"
+	"path/filepath"
+	"sync"
 	"testing"
+
+	"pgregory.net/rapid"
 
 	"verif/env"
 	"verif/pbt"
@@ -22,7 +28,175 @@ func TestMain(m *testing.M) {
 		}
 		return err
 	})
+	pbt.RegisterReplay("retarget_forks", func(raw json.RawMessage) error {
+		var c sim.Case
+		if err := json.Unmarshal(raw, &c); err != nil {
+			return err
+		}
+		s, err := runOnTemplate(c, nil)
+		if s != nil {
+			s.Close()
+		}
+		return err
+	})
 	pbt.Main(m, "C06")
+}
+
+// ---------------------------------------------------------------------------------------------
+// Forks that straddle a retarget: a longer-but-lighter branch against a shorter-but-heavier one.
+// The 2011..2014-block base is mined once per process into a template directory; each case works on
+// a copy (the model replays the base without the node).
+
+var (
+	tmplMu sync.Mutex
+	tmpls  = map[string]string{}
+)
+
+func copyDir(src, dst string) error {
+	return filepath.Walk(src, func(p string, info os.FileInfo, err error) error {
+		if err != nil {
+			return err
+		}
+		rel, _ := filepath.Rel(src, p)
+		t := filepath.Join(dst, rel)
+		if info.IsDir() {
+			return os.MkdirAll(t, 0o770)
+		}
+		b, err := os.ReadFile(p)
+		if err != nil {
+			return err
+		}
+		return os.WriteFile(t, b, 0o660)
+	})
+}
+
+func runOnTemplate(c sim.Case, open func(string) bool) (*sim.Sim, error) {
+	key := fmt.Sprintf("%+v", c.Params)
+	tmplMu.Lock()
+	tm, ok := tmpls[key]
+	if !ok {
+		d, err := os.MkdirTemp("", "c06tmpl")
+		if err != nil {
+			tmplMu.Unlock()
+			return nil, err
+		}
+		base := sim.Case{Params: c.Params}
+		s, err := sim.RunCaseCfg(base, env.Options{}, sim.Hooks{}, nil, sim.Config{Dir: d})
+		if err != nil {
+			tmplMu.Unlock()
+			return s, fmt.Errorf("building the base chain: %v", err)
+		}
+		s.Node.Ch.Idle()
+		s.WaitSnapshot()
+		s.Close()
+		tmpls[key], tm = d, d
+	}
+	tmplMu.Unlock()
+	work, err := os.MkdirTemp("", "c06run")
+	if err != nil {
+		return nil, err
+	}
+	dir := filepath.Join(work, "d")
+	if err := copyDir(tm, dir); err != nil {
+		os.RemoveAll(work)
+		return nil, err
+	}
+	s, err := sim.RunCaseCfg(c, env.Options{}, sim.Hooks{}, open, sim.Config{Dir: dir, AssumePrefix: true})
+	// the chain must be shut down before its directory goes away
+	if s != nil && s.Node != nil {
+		s.Node.Close()
+	}
+	os.RemoveAll(work)
+	return s, err
+}
+
+type combo struct {
+	prefix  int
+	spacing uint32
+}
+
+var combos = []combo{{2013, 150}, {2012, 600}, {2014, 300}, {2011, 2400}, {2013, 149}, {2012, 151}}
+
+func genRetargetForks(t *rapid.T) sim.Case {
+	sh, _ := pbt.Shard()
+	cb := combos[sh%len(combos)]
+	c := sim.Case{Params: sim.ParamSpec{BIP34: 1, BIP65: 1, BIP66: 1, CSV: 1, Segwit: 1, Taproot: 1,
+		Prefix: cb.prefix, Spacing: cb.spacing, PowBits: 0x207fffff}}
+	blk := func(parent int, step uint32) sim.Op {
+		op := sim.GenOp(t, sim.Profile{MaxTx: 2})
+		op.Kind, op.Parent, op.Viol, op.Hold, op.Step = "block", parent, "", false, step
+		return op
+	}
+	year := uint32(31536000)
+	jump := uint32(rapid.IntRange(1, 4).Draw(t, "years"))*year + uint32(rapid.IntRange(0, 100000).Draw(t, "secs"))
+	// branch B: long, its window ends years later (easy target after the boundary)
+	nB := rapid.IntRange(3, 8).Draw(t, "nB")
+	for i := 0; i < nB; i++ {
+		st := cb.spacing
+		if i == 0 {
+			st = jump
+		}
+		c.Ops = append(c.Ops, blk(-1, st))
+	}
+	// branch A from the fork point: short, regular spacing (hard target after the boundary)
+	nA := rapid.IntRange(2, nB).Draw(t, "nA")
+	for i := 0; i < nA; i++ {
+		parent := -2
+		if i == 0 {
+			parent = nB
+		}
+		c.Ops = append(c.Ops, blk(parent, cb.spacing))
+	}
+	// and some free play on top
+	p := profile
+	p.Prefixes = nil
+	for i, n := 0, rapid.IntRange(0, 8).Draw(t, "extra"); i < n; i++ {
+		op := sim.GenOp(t, p)
+		if op.Kind == "block" && rapid.IntRange(0, 3).Draw(t, "regular") != 0 {
+			op.Step = cb.spacing
+		}
+		c.Ops = append(c.Ops, op)
+	}
+	return c
+}
+
+func TestRetargetForks(t *testing.T) {
+	pbt.Check(t, pbt.Cfg{Name: "retarget_forks", Quick: 96, Thorough: 3200}, func(r *pbt.Run) {
+		c := genRetargetForks(r.T)
+		r.Case(c)
+		s, err := runOnTemplate(c, pbt.FindingOpen)
+		if s != nil {
+			defer s.Close()
+			for _, k := range s.ExcludedKeys {
+				r.Excluded(k)
+			}
+			if s.Reorgs > 0 {
+				r.Class("reorg")
+				r.NonTrivial()
+			}
+			// a reorganisation onto a branch with fewer blocks
+			shorter := false
+			for _, l := range s.Labels {
+				if l == "reorg-to-shorter-branch" {
+					shorter = true
+				}
+			}
+			if shorter {
+				r.Class("reorg_to_shorter_heavier_branch")
+			}
+			if s.NearTies > 0 {
+				r.Class("near_tie")
+			}
+			pbt.AddExtra("retarget_reorgs", int64(s.Reorgs))
+		}
+		if x, ok := err.(*sim.Excluded); ok {
+			r.Excluded(x.Key)
+			return
+		}
+		if err != nil {
+			r.Failf("%v", err)
+		}
+	})
 }
 
 var profile = sim.Profile{
